@@ -117,6 +117,11 @@ def run_case(run, drv, case_seed):
                         pass
             finally:
                 os.chdir(base)
+            # empty the first destination again: anything that turns up there later was
+            # written by the second run, which was given a different destination
+            import shutil as _sh
+            _sh.rmtree(os.path.join(other, dname), ignore_errors=True)
+            os.makedirs(os.path.join(other, dname))
             if tr0.escapes:
                 run.fail("impl-vs-spec", dict(case_stub(case_seed, version, single, name, files), relative="first"),
                          {"why": "attempted to write outside the destination",
